@@ -2,6 +2,7 @@
 (_ConnectionFairy._reset, DefaultDialect.reset_isolation_level), histories on a fake DBAPI as the bounded complement."""
 import importlib
 import contracts.pool_reset  # noqa: F401
+import contracts.finalize_fairy  # noqa: F401  (_finalize_fairy: shared by C24 and C26)
 from pyvc.contract import FUNCS
 from vlib.proof import run_proofs
 from vlib.bounded import run_bounded
@@ -18,7 +19,7 @@ def run(run, tier, seed, args):
     run.assumptions += [
         "assumed driver contracts: do_rollback / do_commit end the transaction or raise; _assert_and_set_isolation_level sets the level or raises",
         "event listeners (pool.dispatch.reset) and logging do not touch the ghost state",
-        "_finalize_fairy and Connection.close (the call site that passes transaction_reset=True) are covered by the bounded complement only; _ConnectionRecord.checkin (runs and empties finalize_callback) is under proof in C26",
+        "_finalize_fairy is under proof for sync dialects, non-detached case (reset runs; on an Exception the record is invalidated; the record is checked in exactly once; a stale gc callback does nothing) -- exceptional exits and the detach / async arms are not claimed; Connection.close (the call site that passes transaction_reset=True) is covered by the bounded complement only; _ConnectionRecord.checkin (runs and empties finalize_callback) is under proof in C26",
         "DefaultDialect._set_connection_characteristics: the two list comprehensions are over-approximated (same length, arbitrary tuples, may raise); characteristic.set_connection_characteristic is a no-op on the modelled state; functools.partial is an uninterpreted pure function of its arguments",
         "server-side session state on real backends and GC timing are outside",
     ]
